@@ -2,7 +2,7 @@
    Model: PL.Rainflow.Model (tied to the code by correspondence); specifications: PL.Rainflow.Spec.
    Only statements, `exact`, Print Assumptions. *)
 From Coq Require Import ZArith List Bool Permutation.
-From PL Require Import Rainflow.Model Rainflow.Eqb Rainflow.FP Rainflow.Spec Rainflow.SpecThm Rainflow.IndexThm Rainflow.HcmThm Rainflow.Bounded34 Rainflow.Index3.
+From PL Require Import Rainflow.Model Rainflow.Eqb Rainflow.FP Rainflow.Spec Rainflow.SpecThm Rainflow.IndexThm Rainflow.HcmThm Rainflow.Bounded34 Rainflow.Index3 Rainflow.Cons3.
 Import ListNotations.
 Open Scope Z_scope.
 
@@ -21,6 +21,12 @@ Theorem conservation_4pt s : s <> [] ->
   let '(c, r, _, _) := run4 [s] in
   Permutation (tp_seq s) (flat_map (fun q => [fst (fst (fst q)); snd (fst (fst q))]) c ++ r).
 Proof. exact (IndexThm.conservation_4pt s). Qed.
+
+(* the same for the three-point detector (ghost kernel returning the popped positions) -- unbounded *)
+Theorem conservation_3pt s : s <> [] ->
+  let '(c, r, _, _) := run3 [s] in
+  Permutation (tp_seq s) (flat_map (fun q => [fst (fst (fst q)); snd (fst (fst q))]) c ++ r).
+Proof. exact (Cons3.conservation_3pt s). Qed.
 
 Theorem conservation_fkm s :
   let '(c, r, _) := runF [s] in Permutation (map snd (find_turns s)) (endsZ c ++ r).
@@ -70,6 +76,7 @@ Proof. vm_compute. reflexivity. Qed.
 Print Assumptions fourpoint_is_textbook.
 Print Assumptions fkm_is_hcm.
 Print Assumptions conservation_4pt.
+Print Assumptions conservation_3pt.
 Print Assumptions conservation_fkm.
 Print Assumptions index_addresses_value_4pt.
 Print Assumptions index_addresses_value_3pt.
